@@ -21,6 +21,8 @@ func checkC01(c *Ctx) {
 	c.Rule("C01-R6", "showCursor runs after the cell loop on every path; addressing only inside the four-sided on-screen test, otherwise hideCursor")
 	c.Rule("C01-R7", "palette indices come from the colour cache or FindColor over the terminal palette; RGB triples from the same colour under truecolor")
 	c.Rule("C01-R8", "after painting a wide rune, draw re-dirties the hidden column (bounded by the width)")
+	c.Rule("C01-R13", "the underline attribute bit and the underline style stay in step (the painters draw from the style): every Style method that replaces attrs as a whole also sets ulStyle, every method that sets ulStyle also sets the bit")
+	c.Expect("C01-R13", 2)
 	c.Rule("C01-R12", "LockRegion locks exactly the cells of the rectangle it is given (cells outside it stay paintable)")
 	c.Expect("C01-R12", 1)
 	c.Rule("C01-R11", "the column a rune is believed to occupy is its go-runewidth width (the painter advances its cursor by it; shared with C08-R7)")
@@ -57,6 +59,7 @@ func checkC01(c *Ctx) {
 		return ok && strings.HasSuffix(calleeName(&call.Call), "Terminfo).TGoto")
 	}
 	checkStyleCacheReads(c, p, "C01-R9")
+	checkUnderlineViews(c, p, "C01-R13")
 	if lr := p.Fn("tcell:(*baseScreen).LockRegion"); lr != nil {
 		lockRegionRange(c, p, lr, "C01-R12")
 	} else {
